@@ -107,6 +107,7 @@ def run(ctx):
     s.add("S-COVER", aj, "writer-member-names", "as_json", aj.sp, PROVED if okn else VIOLATION,
           "the writer emits exactly the seven member names the parser dispatches on" if okn else
           "writer names %s differ from the parser's" % sorted(n_.decode() for n_ in names))
+    escaping.unescape_writes(ctx, s)
     escaping.writer_escapes(ctx, s, "pocket_types::Event::as_json")
     escaping.writer_escapes(ctx, s, "pocket_types::Tags::as_json")
     ctx.functions.update({fp.path, pj.path, ffp.path, fpj.path, tfp.path, rta.path, aj.path})
